@@ -204,6 +204,11 @@ impl<Effect, Event> Command<Effect, Event> {
                 };
             }
         }
+
+        // the ready queue has just been found empty: whatever the caller does next (look at the
+        // output channels, register a waker) races with wake-ups from other threads
+        #[cfg(crux_verif)]
+        crate::verif::point("cmd.settled");
     }
 
     pub(crate) fn run_task(&mut self, task_id: TaskId) -> TaskState {
